@@ -100,6 +100,7 @@ class World:
     CHUNK = 100
     MAX_STEPS = 300000
     SHRINK_LISTS = ["ops", "faults"]     # plan keys that hold lists ddmin may thin out
+    HARNESS_THREAD_PREFIXES = ("client", "peer", "witness", "hostile", "fresh", "closer", "legit", "ns-client", "reader", "bg")
     ALLOC_BOMB_VIOLATION = False         # worlds with hostile peers: a decoder asked to allocate absurdly much is a finding
     THREADED = True
 
@@ -132,6 +133,9 @@ class World:
 
     # ---- one run
     def run(self, plan, trace=False):
+        # a plan is exactly its JSON text: a freshly generated plan can share sub-objects (marshal then writes
+        # back-references and the message gets shorter) which the same plan loaded from a replay file does not
+        plan = json.loads(json.dumps(plan))
         seams.reset_between_runs()
         sched = S.Sched(plan["sched"], max_steps=self.MAX_STEPS)
         if trace:
@@ -156,7 +160,13 @@ class World:
                     ctx.violate("busy-loop", fr, "the code under test ran for %.0f wall seconds without reaching a yield point (spinning in %s)"
                                 % (BUSY_AFTER_S, fr))
             except S.StepCap as e:
-                harness = "step-cap: %s" % e
+                dom = sched.dominant_thread()
+                if dom is not None and dom[0] not in ("driver",) and not dom[0].startswith(self.HARNESS_THREAD_PREFIXES):
+                    # the code under test spins through yield points without virtual time ever advancing: a livelock
+                    ctx.violate("livelock", dom[0], "thread %r took %d scheduler steps at one virtual instant (step cap %d reached): "
+                                "the code under test is spinning" % (dom[0], dom[1], self.MAX_STEPS))
+                else:
+                    harness = "step-cap: %s (dominant thread %r)" % (e, dom)
             except S.Deadlock as e:
                 harness = "deadlock: %s" % e
             except seams.SeamEscape as e:
